@@ -34,6 +34,7 @@ MAP = [
     ('memcmp comparison fast paths ignored differing FixedSize counts', 'C13'),
     ('default-initialised vectors with FixedSize parameters had indeterminate fixed sizes', 'C18'),
     ('whole-buffer comparison ignored the element count of vectors with zero-sized elements', 'C13'),
+    ('iterators of vectors without VaryingSize parameters were not default constructible', 'C11'),
 ]
 
 ROOT = os.path.dirname(os.path.dirname(os.path.abspath(__file__)))
